@@ -1,6 +1,6 @@
-\* step-level pass P (hook H3): recorded scalars at every step, the full property on real snapshots at quiescence
-CONSTANT Threads = {"t1", "t2", "t3", "t4"}
-CONSTANT Keys <- TKeys
+\* (own tests of the repository: key / thread name pools) step-level pass C (hook H3): every recorded event is the model action of that thread, with the recorded effect
+CONSTANT Threads <- OThreads
+CONSTANT Keys <- OKeys
 CONSTANT CvKeys = {}
 CONSTANT RevKeys = {}
 CONSTANT DocOf <- HDocOf
@@ -14,18 +14,17 @@ CONSTANT MaxOps = 1000000
 CONSTANT MaxSteps = 1000000
 CONSTANT SplitLoad = FALSE
 CONSTANT MaxUpd = 1000000
-CONSTANT Pool = 10
+CONSTANT Pool = 64
 CONSTANT SeqPrefix = 0
 CONSTRAINT Progress
 POSTCONDITION Accept
 CHECK_DEADLOCK FALSE
-SPECIFICATION HPSpec
-INVARIANT BoundedR
-INVARIANT ItemsUnlockedR
-INVARIANT SingleFlightR
-INVARIANT Fresh
-INVARIANT FreshAfterInvalidate
+SPECIFICATION HCSpec
+INVARIANT SingleFlight
+INVARIANT ListMapBij
+INVARIANT ItemsUnlocked
+INVARIANT PoolOK
 INVARIANT Bounded
-INVARIANT ItemsExact
-INVARIANT BytesExact
-INVARIANT EmptyIsZero
+INVARIANT BytesExactND
+INVARIANT EmptyIsZeroND
+INVARIANT ListMapR
